@@ -26,8 +26,9 @@ Print Assumptions C17_promised_is_rewrapped.
 (* ops_preserve: for EVERY sequence of operations (any length; the <=6 bound applies to the correspondence run
    only), every element tagging, every second operand: (1) the object itself, after every operation -- also a
    refused one --, and every new object of the family keep the class tag and ALL election attributes of the start
-   object (the two exceptions: as_multiprofile, whose result is the multiprofile class of the same ballot type, and
-   construction with an explicit ballot_validation flag, which changes exactly that flag -- see C17_ctorval);
+   object (the three stated exceptions: as_multiprofile, whose result is the multiprofile class of the same ballot type;
+   construction with an explicit ballot_validation flag, which changes exactly that flag -- see C17_ctorval; and the
+   satisfaction profile of a profile, class 18/19, which keeps the INSTANCE LINK (attribute 0) of the profile);
    (2) an operation the API promises never comes back as a bare builtin, and its result has the class and the
    attributes of the object it was derived from. *)
 Theorem C17_ops_preserve : forall tags other ops cur,
@@ -36,6 +37,8 @@ Theorem C17_ops_preserve : forall tags other ops cur,
       | RRaise x | RSame x | RNone x => o_cls x = o_cls cur /\ o_attrs x = o_attrs cur
       | RNew x => (o_cls x = o_cls cur /\ o_attrs x = o_attrs cur) \/ (o = OAsMulti /\ o_cls x = o_cls cur + 4)
                   \/ (exists b, o = OCtorVal b /\ o_cls x = o_cls cur)
+                  \/ (exists k, o = OAsSat k /\ (o_cls x = 18 \/ o_cls x = 19)
+                                /\ nth 0 (o_attrs x) 0 = nth 0 (o_attrs cur) 0)
       | RPlain => True
       end)
      /\ (family (o_cls cur) = true -> promised (o_cls cur) (opname o) = true ->
@@ -57,12 +60,14 @@ Theorem C17_ctorval : forall tags cur other b x,
 Proof. exact ctorval_spec. Qed.
 Print Assumptions C17_ctorval.
 
-(* validated_profile_inv, LIST profiles: if validation is on and the profile holds only ballots admitted by its
-   ballot_type, then after every operation of every sequence (append / insert / extend / += / item and slice
-   assignment / *= / reverse with right- and wrong-typed elements, and every deriving operation) the object itself
-   and every object handed back hold only admitted ballots. *)
-Theorem C17_validated_list_profile_inv_partial : forall tags other ops cur,
-  is_list_profile (o_cls cur) = true ->
+(* validated_profile_inv, list profiles AND multiprofiles (classes 10..17): if validation is on and the profile
+   holds only ballots admitted by its ballot_type, then after every operation of every sequence, of any length --
+   append / insert / extend / += / item and slice assignment / *= / reverse / pop / clear on lists;
+   append / extend / __setitem__ / setdefault / update(iterable) / update(mapping) / += / -= / |= / &= / clear on
+   Counters (Z-valued counts, partial effects of refused loops included); every deriving operation; construction
+   with a validation flag -- the object itself and every object handed back hold only admitted ballots. *)
+Theorem C17_validated_profile_inv : forall tags other ops cur,
+  is_list_profile (o_cls cur) || is_multi_profile (o_cls cur) = true ->
   (validation_on (o_attrs cur) = true ->
    forall ec, In ec (o_payload cur) -> accepts (o_cls cur) (btype (o_attrs cur)) (tag tags (fst ec)) = true) ->
   Forall (fun r => match r with
@@ -71,17 +76,8 @@ Theorem C17_validated_list_profile_inv_partial : forall tags other ops cur,
                        forall ec, In ec (o_payload x) -> accepts (o_cls x) (btype (o_attrs x)) (tag tags (fst ec)) = true
                    | RPlain => True
                    end) (run_ops tags cur other ops).
-Proof. exact (fun tags other ops cur => list_profile_run_ok tags other ops cur). Qed.
-Print Assumptions C17_validated_list_profile_inv_partial.
-
-(* UNPROVED (DESIGN M, second half of validated_profile_inv): the same invariant for the four MULTIPROFILE
-   classes (Counter payloads: append / extend / __setitem__ / setdefault / update / += / -= / |= / &= and the
-   deriving operators):
-     forall tags other ops cur, is_multi_profile (o_cls cur) = true -> pay_ok tags cur ->
-       Forall (res_ok tags) (run_ops tags cur other ops).
-   The model refuses wrong-typed keys at exactly these entry points (mp_seq / valid) and the correspondence run
-   checks the invariant on every real object (oracle code 5), but the lemmas about cset / keep_positive / c_add ...
-   preserving admissibility are not written yet. *)
+Proof. exact (fun tags other ops cur => profile_run_ok tags other ops cur). Qed.
+Print Assumptions C17_validated_profile_inv.
 
 (* ctor_keeps_name_meta: with the abstract initialiser called FIRST (the repaired order, all eight ballot classes)
    a ballot ends up with the name and meta it was given, a ballot built from another ballot with that ballot's,
@@ -113,3 +109,18 @@ Example C17_nonvacuous :
         RNew (mkObj 14 [1; 0; 0; 1; 2; 0; 1] []);
         RPlain].
 Proof. vm_compute. repeat split; reflexivity. Qed.
+
+(* non-vacuity, multiprofile (class 14) with validation on: a refused wrong-typed setdefault, += with an unvalidated
+   operand holding a foreign ballot stops at that ballot (partial effect), construction with validation on succeeds,
+   the satisfaction multiprofile keeps the instance link *)
+Example C17_nonvacuous_multi :
+  let tags := [6; 6; 6; 7; 8; 9; 2; 0] in
+  let cur := mkObj 14 [1; 0; 0; 0; 2; 0; 0] [(0, 2%Z)] in
+  let other := mkObj 14 [1; 1; 0; 0; 0; 0; 0] [(1, 1%Z); (3, 2%Z); (2, 5%Z)] in
+  run_ops tags cur other [OSetdefault 3 1%Z; OIBin "__iadd__" false; OCtorVal true; OAsSat 1; OClear]
+  = [RRaise (mkObj 14 [1; 0; 0; 0; 2; 0; 0] [(0, 2%Z)]);
+     RRaise (mkObj 14 [1; 0; 0; 0; 2; 0; 0] [(0, 2%Z); (1, 1%Z)]);
+     RNew (mkObj 14 [1; 0; 0; 0; 2; 0; 0] [(0, 2%Z); (1, 1%Z)]);
+     RNew (mkObj 19 [1; 1] []);
+     RNone (mkObj 14 [1; 0; 0; 0; 2; 0; 0] [])].
+Proof. vm_compute. reflexivity. Qed.
